@@ -426,7 +426,8 @@ impl Deb822 {
                     ));
                     current = vec![];
                 }
-                COMMENT | ERROR => {
+                COMMENT | ERROR | NEWLINE => {
+                    // comment lines (with the newline that ends them)
                     current.push(c);
                 }
                 EMPTY_LINE => {
